@@ -109,7 +109,7 @@ if [ "$rc" != 0 ] && [ "$rc" != 1 ] && ! grep -q '^INCONCLUSIVE property=' "$BUI
   # or killed): that is an observation about the real code, not a pass
   mkdir -p "$HERE/replays/$ID"
   W="$HERE/replays/$ID/process-death_seed${VERIF_SEED}_${VERIF_TIER}.txt"
-  { echo "check process for $ID exited with status $rc"; echo "--- stderr tail ---"; tail -c 6000 "$BUILD/stderr.log"; echo "--- stdout tail ---"; tail -c 2000 "$BUILD/stdout.log"; } >"$W"
+  { echo "check process for $ID exited with status $rc"; echo "--- stderr tail ---"; tail -c 6000 "$BUILD/stderr.log"; echo "--- stdout tail ---"; tail -c 2000 "$BUILD/stdout.log"; for pf in "$BUILD"/panic.*; do [ -f "$pf" ] && { echo "--- $(basename "$pf") (stack dump written by CheckPanic) ---"; head -c 6000 "$pf"; }; done; } >"$W"
   tail -c 1500 "$BUILD/stderr.log" >&2
   echo "VIOLATION property=$ID replay=$W"
   echo "  class=process-death detail=the monitor process died with status $rc (see replay file)"
